@@ -38,7 +38,8 @@ TIES = {
                           "signer.Signer.Check", "signer.Signer.CheckHex",
                           "signer.Sessions.New (expiry: lifetime cap)", "signer.Sessions.Check",
                           "signer.TimeSigner.Check", "jwt.CheckTime", "roles.subtleStringEq",
-                          "roles.checkPassCode"]},
+                          "roles.checkPassCode", "jwt.checkHeader", "jwt.CheckClaimSet",
+                          "signer.NewTimeSigner (window)", "signer.NewRSATimeSigner (window)"]},
     "C08": {"area": "Jsonx", "gen": "Lexing", "refine": "CodeRefine", "cands": "CodeCands",
             "functions": ["lexing.ErrorList.Add", "lexing.IsDigit/IsLetter/IsHexDigit/IsIdentLetter/IsWhite",
                           "lexing.lexLineComment", "lexing.lexBlockComment", "lexing.LexRawString",
